@@ -261,10 +261,39 @@ def cond_guarded(ctx, key, body, site, desc, fields=(), params=(), calls=(), con
 
 # ----------------------------------------------------------------------------- K4 confinement
 
+def strip_closures(path):
+    """def-path of the function a closure (of a closure ...) is written in"""
+    return re.sub(r'(::\{closure#\d+\})+$', '', path)
+
+
+def confined_through(F, fn, allowed):
+    """fn is in `allowed`, or a helper/closure every caller chain of which passes through a function in `allowed` before it
+    reaches a root of the call graph (extracting a helper out of an allowed function, or moving code into a closure of it, is
+    transparent). Closures count as the function they are written in."""
+    allowed = set(strip_closures(a) for a in allowed)
+    if strip_closures(fn) in allowed:
+        return True
+    seen = {fn}
+    stack = [fn]
+    while stack:
+        x = stack.pop()
+        cs = F.callers(x)
+        if not cs:
+            return False
+        for c in cs:
+            if strip_closures(c) in allowed or c in seen:
+                continue
+            seen.add(c)
+            stack.append(c)
+    return True
+
+
 def callers_confined(ctx, key, F, pats, allowed, desc, required=(), rule='K4-confinement', include_cleanup=True):
     callers = F.direct_callers_of(*pats)
-    extra = sorted(c for c in callers if c not in allowed)
-    missing = sorted(r for r in required if r not in callers)
+    extra = sorted(c for c in callers if not confined_through(F, c, allowed))
+    reach = F.may_reach(*pats)
+    reach_n = set(strip_closures(x) for x in reach)
+    missing = sorted(r for r in required if strip_closures(r) not in reach_n)
     ok = not extra and not missing
     det = ''
     if extra:
@@ -1189,3 +1218,178 @@ def root_local(body, o, n=6):
             continue
         return l
     return l
+
+
+def empty_slot_skipped(ctx, key, body, desc, rule='K2-loop-order'):
+    """page walks: inside a `for` loop over the entries of a page, the `is_empty` test sends the empty case back to the loop head
+    (skip), never out of the loop (an empty slot does not end the page: removals clear slots in place). One obligation per test
+    found in a loop; walks written as iterator chains (is_empty inside a filter closure) have no such branch and yield none."""
+    n = 0
+    loops = for_loops_over(body)
+    for bi, t in body.calls():
+        if bi not in body.normal_blocks() or not call_matches(t, ['re:Entry::is_empty$']):
+            continue
+        sw = t.get('t')
+        if sw is None or body.term(sw)['k'] != 'switch' or body.term(sw)['vals'] != [0]:
+            continue
+        inner = [lp for lp in loops if bi in body.reachable_from([lp['some']], removed={lp['head']})]
+        if not inner:
+            continue
+        # innermost: the loop whose head lies inside the most other candidate loops
+        def depth(l):
+            return sum(1 for l2 in inner if l2 is not l and body.dominates(l2['some'], l['head']))
+        lp = max(inner, key=depth)
+        empty_t = body.term(sw)['ts'][1]
+        w = body.find_path([empty_t], set(body.return_blocks()) | {lp['none']}, removed={lp['head']} | core.error_exit_blocks(body))
+        n += 1
+        ctx.ob('%s #%d' % (key, n), rule, body.path, desc, w is None, '' if w is None else 'an empty slot leaves the page walk: ' + short_path(body, w), body.loc(bi))
+    return n
+
+
+def site_in(F, table_fn, path):
+    """does a reviewed-table entry written for function `table_fn` cover a site in body `path`? Yes for the function itself,
+    its closures, a module prefix entry (ends with '::'), '*', and helpers/closures reachable only through it."""
+    if table_fn == '*' or (table_fn.endswith('::') and path.startswith(table_fn)):
+        return True
+    if strip_closures(path) == strip_closures(table_fn):
+        return True
+    return confined_through(F, path, {table_fn})
+
+
+def field_effect_sites(body, pats, field, argi=0):
+    """call blocks of `body` that apply a call matching pats to (something derived from) `field` - directly, or by calling a
+    crate function / passing a closure that may do so (helper extraction is transparent; may-semantics)."""
+    F = body.facts
+    key = ('feff', field, argi) + tuple(pats)
+    cache = F.__dict__.setdefault('_feff_cache', {})
+    if key not in cache:
+        direct = set(b.path for b, bi in calls_on_field(F, pats, field, argi))
+        cache[key] = (direct, F.transitive_callers(direct))
+    direct, reach = cache[key]
+    nb = body.normal_blocks()
+    res = []
+    for bi, t in body.calls():
+        if bi not in nb:
+            continue
+        if call_matches(t, pats) and field in receiver_fields(body, t, argi):
+            res.append(bi)
+        elif any(n in reach for n in call_names(t) if n in F.bodies and n != body.path):
+            res.append(bi)
+        elif any(c in reach for c in closure_operands(body, t)):
+            res.append(bi)
+    return res
+
+
+def family(F, root):
+    """the body `root`, its closures, and the crate functions reachable only through it (helpers extracted from it)."""
+    rb = F.body(root)
+    if rb is None:
+        return []
+    res = [rb]
+    for c in sorted(F.transitive_callees([root])):
+        if c == root:
+            continue
+        b = F.body(c)
+        if b is not None and confined_through(F, c, {root}):
+            res.append(b)
+    return res
+
+
+def value_sources(body, local, depth=3, _seen=None):
+    """where the value in `local` is made: list of (body, block, stmt|term) for aggregates, constants and foreign calls,
+    looking through moves/copies, `?` (Try::branch + payload projection), Ok(..) wrappers and the return values of crate
+    functions (depth-limited)."""
+    _seen = _seen if _seen is not None else set()
+    out = []
+    stack = [local]
+    while stack:
+        l = stack.pop()
+        if (body.path, l) in _seen:
+            continue
+        _seen.add((body.path, l))
+        for (bi, si, kind, x) in body.defs().get(l, []):
+            if kind == 'assign':
+                r = x['r']
+                if r['k'] in ('use', 'cast') and op_place(r['a'][0]) is not None:
+                    stack.append(op_place(r['a'][0])[0])
+                elif r['k'] in ('use', 'cast'):
+                    out.append((body, bi, x))
+                elif r['k'] == 'agg' and r['ak'] in ('Adt:std::result::Result::Ok', 'Adt:std::ops::ControlFlow::Continue') and r['a'] and op_place(r['a'][0]) is not None:
+                    stack.append(op_place(r['a'][0])[0])
+                elif r['k'] in ('ref', 'copyderef'):
+                    stack.append(r['p'][0])
+                else:
+                    out.append((body, bi, x))
+            elif kind == 'call':
+                if call_matches(x, ['std::ops::Try::branch']) and x['a'] and op_local(x['a'][0]) is not None:
+                    stack.append(op_local(x['a'][0]))
+                    continue
+                cb = None
+                for n in call_names(x):
+                    if body.facts.body(n) is not None:
+                        cb = body.facts.body(n)
+                        break
+                if cb is not None and depth > 0 and cb.path != body.path:
+                    out += value_sources(cb, 0, depth - 1, _seen)
+                else:
+                    out.append((body, bi, x))
+    return out
+
+
+def shallow_calls(F, calls, owner=None):
+    """callee names in `calls` plus the names called directly by the crate bodies among them (one level), and - transitively -
+    by closures written inside `owner`. For predicates factored into a small helper or a closure."""
+    res = set(calls)
+    todo = [c for c in calls if F.body(c) is not None]
+    seen = set()
+    while todo:
+        c = todo.pop()
+        if c in seen:
+            continue
+        seen.add(c)
+        b = F.body(c)
+        for bi, t in b.calls():
+            res |= set(call_names(t))
+        for st in (s for blk in b.blocks for s in blk['s']):
+            if st['k'] == 'assign' and st['r']['k'] == 'agg' and str(st['r'].get('ak', '')).startswith('Closure:'):
+                todo.append(st['r']['ak'][8:]); res.add(st['r']['ak'][8:])
+        if owner is not None:
+            for n in list(res):
+                if n.startswith(owner + '::{closure') and n not in seen and F.body(n) is not None:
+                    todo.append(n)
+    return res
+
+
+def fam_sites(F, root, pats):
+    """(body, block) call sites matching pats in `root`, its closures and the helpers reachable only through it."""
+    return [(fb, bi) for fb in family(F, root) for bi in fb.call_sites(*pats) if bi in fb.normal_blocks()]
+
+
+def paired_after(ctx, key, F, root, first_pats, second_pats, second_field, desc, rule='K1-must-pass', min_first=1):
+    """after each call matching first_pats made by `root` (or by a helper extracted from it) every success path applies
+    second_pats to `second_field` - in the same function, or, when the first call sits at the end of a helper, in each caller
+    after the helper returns."""
+    firsts = fam_sites(F, root, first_pats)
+    ctx.ob(key + ' anchors', 'anchor', root, 'the first call of the pair exists', len(firsts) >= min_first, str([(fb.path, bi) for fb, bi in firsts]))
+    n = 0
+    for fb, e in firsts:
+        n += 1
+        seconds = field_effect_sites(fb, second_pats, second_field)
+        w = ok_return_unreachable_avoiding(fb, seconds, [e]) if seconds else ['?']
+        ok = w is None
+        det = ''
+        if not ok and fb.path != root:
+            # the helper returns without the second call: every caller must make it after the helper call
+            ok = True
+            for cpath in F.callers(fb.path):
+                cb = F.body(cpath)
+                if cb is None:
+                    continue
+                cs2 = field_effect_sites(cb, second_pats, second_field)
+                for cs in cb.call_sites(fb.path):
+                    if not cs2 or ok_return_unreachable_avoiding(cb, cs2, [cs]) is not None:
+                        ok = False
+                        det = 'neither %s nor its caller %s makes the second call on every success path' % (fb.path, cpath)
+        elif not ok:
+            det = 'success path without the second call: ' + (short_path(fb, w) if w and w != ['?'] else 'no such call in the function')
+        ctx.ob('%s #%d' % (key, n), rule, fb.path, desc, ok, det, fb.loc(e))
